@@ -348,9 +348,22 @@ def splice(template_path, repo_root, canary=False, quarantine=(), inline=None):
                         expected = [x.strip() for x in v_.split(",") if x.strip()]
                 if expected is None:
                     expected = [p for p in hp if not p.startswith("__")]
+                renames = []
                 if [p for p in body.params] != expected:
-                    raise LostAnchor(f"{kv['fn']}: real parameters {body.params} differ from the contract's {expected}")
+                    # R5b: the same number of parameters under other names (self in the same place): the contract keeps its
+                    # names and the body gets `let <real name> = <contract name>;` in front — unless fragments / explicit
+                    # `params:` are in play, where the names are the anchor
+                    real = list(body.params)
+                    explicit = any(k_ == "params" for (k_, v_) in directives)
+                    if (not explicit and len(real) == len(expected) and all((a == "self") == (b == "self") for a, b in zip(real, expected))
+                            and len(set(real)) == len(real) and not (set(real) & set(expected) - {n for n, m_ in zip(real, expected) if n == m_})):
+                        renames = [(a, b) for a, b in zip(real, expected) if a != b]
+                    else:
+                        raise LostAnchor(f"{kv['fn']}: real parameters {body.params} differ from the contract's {expected}")
                 apply_directives(body, directives, unit)
+                if renames:
+                    body.insert(body.toks[body.open].end, " " + " ".join(f"let mut {a} = {b};" for a, b in renames) + " ", "R5b-param-rename", order=-3 * 10 ** 12)
+                    body.report.append(("R5b-param-rename", "parameters renamed in the source: " + ", ".join(f"{b} is now {a}" for a, b in renames)))
                 text, linemap = body.render()
             except LostAnchor as e:
                 # this hole only: the function is emitted with a placeholder body and reported as undecided, so that the
